@@ -9,3 +9,8 @@ import ClipperVerif.Props.C05
 import ClipperVerif.Props.C13
 import ClipperVerif.Props.C11
 import ClipperVerif.Props.C18Geom
+import ClipperVerif.Props.C06
+import ClipperVerif.Props.C07
+import ClipperVerif.Props.C17
+import ClipperVerif.Props.C11Export
+import ClipperVerif.Props.C20
